@@ -58,7 +58,7 @@ class ClassInfo:
 
 
 class Module:
-    __slots__ = ('name', 'path', 'tree', 'src', 'imports', 'lines')
+    __slots__ = ('name', 'path', 'tree', 'src', 'imports', 'lines', 'nodes')
 
     def __init__(self, name, path, tree, src):
         self.name = name
@@ -66,6 +66,7 @@ class Module:
         self.tree = tree
         self.src = src
         self.lines = src.splitlines()
+        self.nodes = []
         # local name -> (module relative name | absolute dotted, attr or None)
         self.imports: Dict[str, Tuple[str, Optional[str]]] = {}
 
@@ -80,6 +81,8 @@ class Index:
         self.parent: Dict[int, ast.AST] = {}
         self.owner_func: Dict[int, Func] = {}      # id(node) -> Func
         self.node_mod: Dict[int, Module] = {}
+        self.subnodes: Dict[int, list] = {}
+        self._tree_mod = None
         self._digest = hashlib.sha256()
         root = os.path.join(repo, PKG)
         if not os.path.isdir(root):
@@ -119,12 +122,70 @@ class Index:
             self._index_module(mod)
         self.digest = self._digest.hexdigest()
 
+    @classmethod
+    def with_overlay(cls, base: 'Index', overlay: Dict[str, str]) -> 'Index':
+        """A new index sharing every unchanged module with `base`."""
+        self = cls.__new__(cls)
+        self.repo = base.repo
+        self.overlay = dict(overlay)
+        self.modules = dict(base.modules)
+        from collections import ChainMap
+        self.parent = ChainMap({}, base.parent)
+        self.owner_func = ChainMap({}, base.owner_func)
+        self.node_mod = ChainMap({}, base.node_mod)
+        self.subnodes = ChainMap({}, base.subnodes)
+        self._tree_mod = None
+        changed = set()
+        for rel in overlay:
+            name = rel[len(PKG) + 1:-3].replace('/', '.')
+            if name.endswith('.__init__'):
+                name = name[:-9]
+            elif name == '__init__':
+                name = ''
+            changed.add(name)
+        self.funcs = {k: f for k, f in base.funcs.items()
+                      if f.mod not in changed}
+        self.classes = {}
+        for k, infos in base.classes.items():
+            keep = [ci for ci in infos if ci.mod not in changed]
+            if keep:
+                self.classes[k] = keep
+        dg = hashlib.sha256(base.digest.encode())
+        for rel, src in sorted(overlay.items()):
+            dg.update(rel.encode())
+            dg.update(src.encode())
+            try:
+                tree = ast.parse(src, filename=rel)
+            except SyntaxError as exc:
+                raise AnalysisError(f'cannot parse {rel}: {exc}')
+            name = rel[len(PKG) + 1:-3].replace('/', '.')
+            if name.endswith('.__init__'):
+                name = name[:-9]
+            elif name == '__init__':
+                name = ''
+            mod = Module(name, rel, tree, src)
+            self.modules[name] = mod
+            self._index_module(mod)
+        self.digest = dg.hexdigest()
+        return self
+
     # ------------------------------------------------------------------
     def _index_module(self, mod: Module):
-        for node in ast.walk(mod.tree):
-            for ch in ast.iter_child_nodes(node):
-                self.parent[id(ch)] = node
-        for node in ast.walk(mod.tree):
+        """Single pass: parents, owners, imports, defs, flat node lists."""
+        parent = self.parent
+        owner = self.owner_func
+        nmod = self.node_mod
+        nodes = mod.nodes
+        sub = self.subnodes
+        FN = (ast.FunctionDef, ast.AsyncFunctionDef)
+
+        def visit(node, quals, cls, func, open_lists):
+            nodes.append(node)
+            for lst in open_lists:
+                lst.append(node)
+            if func is not None:
+                owner[id(node)] = func
+                nmod[id(node)] = mod
             if isinstance(node, ast.ImportFrom):
                 base = node.module or ''
                 if node.level:
@@ -140,38 +201,44 @@ class Index:
                 for a in node.names:
                     mod.imports[(a.asname or a.name).split('.')[0]] = (
                         a.name, None)
-        self._walk_defs(mod, mod.tree, [], None)
+            for ch in ast.iter_child_nodes(node):
+                parent[id(ch)] = node
+                if isinstance(ch, FN):
+                    q = '.'.join(quals + [ch.name])
+                    f = Func(q, mod.name, ch, cls, mod.path)
+                    key = f.fq
+                    if key in self.funcs:
+                        n = 2
+                        while f'{key}#{n}' in self.funcs:
+                            n += 1
+                        self.funcs[f'{key}#{n}'] = self.funcs[key]
+                    self.funcs[key] = f
+                    if cls is not None and quals and quals[-1] == cls.name:
+                        cls.methods[ch.name] = f
+                    mine = []
+                    sub[id(ch)] = mine
+                    visit(ch, quals + [ch.name], cls, f, open_lists + [mine])
+                elif isinstance(ch, ast.ClassDef):
+                    ci = ClassInfo(ch.name, mod.name, ch, mod.path)
+                    self.classes.setdefault(ch.name, []).append(ci)
+                    mine = []
+                    sub[id(ch)] = mine
+                    visit(ch, quals + [ch.name], ci, func, open_lists + [mine])
+                else:
+                    visit(ch, quals, cls, func, open_lists)
 
-    def _walk_defs(self, mod, node, quals, cls):
-        for ch in ast.iter_child_nodes(node):
-            if isinstance(ch, (ast.FunctionDef, ast.AsyncFunctionDef)):
-                q = '.'.join(quals + [ch.name])
-                f = Func(q, mod.name, ch, cls, mod.path)
-                # overloads / redefinitions: keep the last, index the rest #n
-                key = f.fq
-                if key in self.funcs:
-                    n = 2
-                    while f'{key}#{n}' in self.funcs:
-                        n += 1
-                    self.funcs[f'{key}#{n}'] = self.funcs[key]
-                self.funcs[key] = f
-                if cls is not None and len(quals) and quals[-1] == cls.name:
-                    cls.methods[ch.name] = f
-                self._mark_owner(ch, f)
-                self._walk_defs(mod, ch, quals + [ch.name], cls)
-            elif isinstance(ch, ast.ClassDef):
-                ci = ClassInfo(ch.name, mod.name, ch, mod.path)
-                self.classes.setdefault(ch.name, []).append(ci)
-                self._walk_defs(mod, ch, quals + [ch.name], ci)
-            else:
-                self._walk_defs(mod, ch, quals, cls)
+        import sys
+        sys.setrecursionlimit(max(sys.getrecursionlimit(), 10000))
+        visit(mod.tree, [], None, None, [])
+        sub[id(mod.tree)] = nodes
 
-    def _mark_owner(self, fnode, f):
-        # innermost function wins: nested defs are (re)marked later
-        for sub in ast.walk(fnode):
-            self.owner_func[id(sub)] = f
-        for sub in ast.walk(fnode):
-            self.node_mod[id(sub)] = self.modules[f.mod]
+    def walk(self, root):
+        """Like ast.walk (order differs) but cached for modules, classes and
+        functions of the index."""
+        lst = self.subnodes.get(id(root))
+        if lst is not None:
+            return lst
+        return list(ast.walk(root))
 
     # ------------------------------------------------------------------
     def module(self, name: str) -> Module:
@@ -240,10 +307,9 @@ class Index:
         cur = node
         while id(cur) in self.parent:
             cur = self.parent[id(cur)]
-        for mm in self.modules.values():
-            if mm.tree is cur:
-                return mm
-        return None
+        if self._tree_mod is None or len(self._tree_mod) != len(self.modules):
+            self._tree_mod = {id(mm.tree): mm for mm in self.modules.values()}
+        return self._tree_mod.get(id(cur))
 
     def stmt_of(self, node) -> ast.stmt:
         cur = node
